@@ -402,7 +402,12 @@ def path_queries(path, solver="z3", timeout_s=60, prefix="", group_prefix="", tw
         tinfo = dict(extra_info or {})
         if twin_group is not None:
             tinfo["twin_group"] = twin_group
-        out.append(solve.reach_query(prefix + "reach", path.hyp(), solver=solver, timeout_s=timeout_s,
+        hyp = path.hyp()
+        if getattr(path, "witness", None):
+            # non-vacuity witness found during exploration: the twin re-checks the hypotheses at these input values
+            hyp = hyp + [v == val for (v, val) in path.witness]
+            tinfo["witness"] = {str(v): str(val) for (v, val) in path.witness}
+        out.append(solve.reach_query(prefix + "reach", hyp, solver=solver, timeout_s=timeout_s,
                                      info=tinfo, group=group_prefix + "reachability-twin"))
     return out
 
